@@ -364,7 +364,7 @@ func main() {
 	}
 	r := ev.New("C20", "exploration",
 		"hook = dump program + every argument sequence of length <=2 (quick) / <=3 (thorough) over {%url,%mimetype,%supertype,%subtype,x%url,%url%url,%URL,--,\"\"} plus hooks whose program is a placeholder; "+
-			"x 22 hostile links (one the path of an executable, four exactly a placeholder, one with userinfo) x 9 media types (three made of placeholder-like tokens, one in capitals, one followed by a comma and a second type) x 7 entry points (o on a note and on a video, number+Enter for a body link, a named and an unnamed attachment, p and b on an actor; every slot has its own link), each page's entry points pressed in sequence and again in reverse order under one configuration object, through ui.State.Update with a real exec; plus 12 hooks with white space around or instead of arguments loaded from a real config.toml by servitor's own start-up code in a child process; "+
+			"x 22 hostile links (one the path of an executable, four exactly a placeholder, one with userinfo) x 9 media types (three made of placeholder-like tokens, one in capitals, one followed by a comma and a second type) x 7 entry points (o on a note and on a video, number+Enter for a body link, a named and an unnamed attachment, p and b on an actor; every slot has its own link), each page's entry points pressed in sequence and again in reverse order under one configuration object, through ui.State.Update with a real exec; plus 12 hooks with white space around or instead of arguments (and four of them again with the program given by its bare name, found through PATH) loaded from a real config.toml by servitor's own start-up code in a child process; "+
 			"distinct_nontrivial = cases with at least one argument where a process is started")
 	vdump = filepath.Join(ev.VerifDir(), "bin", "vdump")
 	if _, err := os.Stat(vdump); err != nil {
